@@ -34,7 +34,7 @@ func init() {
 			{Name: "surveyor-readqlen-per-context", Mode: "enum", Reset: kit.ResetGlobals, Body: surveyorQLen,
 				NeedCounters: []string{"responses-kept-up-to-qlen"}},
 			{Name: "sub-readqlen-stays-in-effect", Mode: "enum", Reset: kit.ResetGlobals, Body: subQLen,
-				NeedCounters: []string{"overflowed-to-exactly-qlen", "reconfigured-with-a-full-queue"}},
+				NeedCounters: []string{"overflowed-to-exactly-qlen", "reconfigured-with-a-full-queue", "context-length-differs-from-the-socket's"}},
 		}
 	})
 }
@@ -219,9 +219,12 @@ var _ = fmt.Sprint
 // one reconfiguration follows (nothing, Unsubscribe "b", Subscribe "c", the same length again,
 // Unsubscribe + Subscribe "b"), then q+3 further messages arrive and nobody receives meanwhile:
 // every call returns, GetOption still answers q, and exactly the newest q messages are there.
+func SubQLen() { subQLen() }
+
 func subQLen() {
 	q := []int{1, 2, 4, 200}[kit.ChooseFree(4)]
-	onCtx := kit.ChooseFree(2) == 1
+	mode := kit.ChooseFree(3) // socket; context inheriting the socket's length; context with a length of its own
+	onCtx := mode > 0
 	pre := []int{0, q}[kit.ChooseFree(2)]
 	op := kit.ChooseFree(5)
 	s, err := sub.NewSocket()
@@ -239,13 +242,24 @@ func subQLen() {
 	recv := func() ([]byte, error) { return kit.Recv(s) }
 	who := "sub"
 	if onCtx {
-		// the length is set on the socket first: the context inherits it
-		if err := s.SetOption(mangos.OptionReadQLen, q); err != nil {
-			kit.Failf("qlen-refused", "SetOption(ReadQLen,%d): %s", q, kit.ErrName(err))
+		// the length is set on the socket first: the context inherits it - or (mode 2) the socket
+		// has another length and the context is given its own
+		sq := q
+		if mode == 2 {
+			sq = q + 2
+		}
+		if err := s.SetOption(mangos.OptionReadQLen, sq); err != nil {
+			kit.Failf("qlen-refused", "SetOption(ReadQLen,%d): %s", sq, kit.ErrName(err))
 		}
 		c, err := s.OpenContext()
 		if err != nil {
 			kit.Failf("setup", "OpenContext: %s", kit.ErrName(err))
+		}
+		if mode == 2 {
+			if err := c.SetOption(mangos.OptionReadQLen, q); err != nil {
+				kit.Failf("qlen-refused", "context SetOption(ReadQLen,%d): %s", q, kit.ErrName(err))
+			}
+			kit.Count("context-length-differs-from-the-socket's")
 		}
 		set, get = c.SetOption, c.GetOption
 		recv = func() ([]byte, error) { return kit.Recv(c) }
